@@ -366,9 +366,9 @@ PROPS["C12"] = {
         H("c12::c12_seq_raw_roundtrip_a1_s3_m7", covers=1, timeout=1500, mem_gb=8,
           what="raw store / publish / load round trip twice, arbitrary bytes; alignment 1, size 3, raw memory misaligned by 7",
           bounds="unwind 14; 2 stores; concrete size/alignment/misalignment"),
-        H("c12::c12_seq_raw_roundtrip_a4_s12_m5", covers=1, timeout=1500, mem_gb=16,
+        H("c12::c12_seq_raw_roundtrip_a4_s12_m5", covers=1, timeout=3600, mem_gb=34, tiers=("thorough",),
           what="same; alignment 4, size 12, misaligned by 5", bounds="unwind 14; 2 stores"),
-        H("c12::c12_seq_raw_roundtrip_a8_s8_m1", covers=1, timeout=1500, mem_gb=12,
+        H("c12::c12_seq_raw_roundtrip_a8_s8_m1", covers=1, timeout=1500, mem_gb=14,
           what="same; alignment 8, size 8, misaligned by 1", bounds="unwind 14; 2 stores"),
         H("c12::sched::c12_s_reader_outer", crate="hs", covers=3, timeout=1800, mem_gb=10, tiers=("quick",),
           what="reader preempted at every shared operation and in the middle of its copy; writer runs complete stores: "
